@@ -176,6 +176,22 @@ func (s *Solver) solve(d *Decls, o *Obligation) *Result {
 	defer os.Remove(file)
 	r.Answers = map[string]string{}
 	definite := func(a string) bool { return a == "unsat" || a == "sat" }
+	if o.Kind == "vacuity" {
+		// satisfiability probes: one solver, short timeout; "unknown" is tolerated and counted as undecided
+		a, out, t := s.runOne(solvers[0], file, 3, false)
+		r.Answers[solvers[0].name] = a
+		r.Answer, r.Solver, r.TimeS, r.Output = a, solvers[0].name, t, out
+		if a == "error" {
+			r.Status, r.Info = "fault", firstLine(out)
+			return r
+		}
+		if cfile != "" && definite(a) {
+			data, _ := json.Marshal(cacheEntry{Answer: a, Solver: r.Solver, TimeS: t})
+			os.WriteFile(cfile, data, 0o644)
+		}
+		s.classify(r, o)
+		return r
+	}
 	if !s.all {
 		// z3-new first, the others only if it does not decide
 		a, out, t := s.runOne(solvers[0], file, s.timeout, wantModel)
